@@ -43,12 +43,27 @@ Model/MetaVmdk.vos Model/MetaVmdk.vok Model/MetaVmdk.required_vos: Model/MetaVmd
 Model/Vhd.vo Model/Vhd.glob Model/Vhd.v.beautified Model/Vhd.required_vo: Model/Vhd.v Base/Arith.vo Base/Plan.vo Base/Table.vo Gen/Consts.vo
 Model/Vhd.vio: Model/Vhd.v Base/Arith.vio Base/Plan.vio Base/Table.vio Gen/Consts.vio
 Model/Vhd.vos Model/Vhd.vok Model/Vhd.required_vos: Model/Vhd.v Base/Arith.vos Base/Plan.vos Base/Table.vos Gen/Consts.vos
+Proofs/MetaCodec.vo Proofs/MetaCodec.glob Proofs/MetaCodec.v.beautified Proofs/MetaCodec.required_vo: Proofs/MetaCodec.v Base/Arith.vo Base/Plan.vo Base/Layout.vo Gen/Consts.vo Gen/Layouts.vo Model/MetaCodec.vo Model/MetaHdrs.vo
+Proofs/MetaCodec.vio: Proofs/MetaCodec.v Base/Arith.vio Base/Plan.vio Base/Layout.vio Gen/Consts.vio Gen/Layouts.vio Model/MetaCodec.vio Model/MetaHdrs.vio
+Proofs/MetaCodec.vos Proofs/MetaCodec.vok Proofs/MetaCodec.required_vos: Proofs/MetaCodec.v Base/Arith.vos Base/Plan.vos Base/Layout.vos Gen/Consts.vos Gen/Layouts.vos Model/MetaCodec.vos Model/MetaHdrs.vos
+Proofs/MetaHdd.vo Proofs/MetaHdd.glob Proofs/MetaHdd.v.beautified Proofs/MetaHdd.required_vo: Proofs/MetaHdd.v Base/Plan.vo Model/MetaCodec.vo Model/MetaHdd.vo
+Proofs/MetaHdd.vio: Proofs/MetaHdd.v Base/Plan.vio Model/MetaCodec.vio Model/MetaHdd.vio
+Proofs/MetaHdd.vos Proofs/MetaHdd.vok Proofs/MetaHdd.required_vos: Proofs/MetaHdd.v Base/Plan.vos Model/MetaCodec.vos Model/MetaHdd.vos
+Proofs/MetaQcow2.vo Proofs/MetaQcow2.glob Proofs/MetaQcow2.v.beautified Proofs/MetaQcow2.required_vo: Proofs/MetaQcow2.v Base/Arith.vo Base/Plan.vo Base/Layout.vo Gen/Consts.vo Gen/Layouts.vo Model/MetaCodec.vo Model/MetaQcow2.vo Proofs/MetaCodec.vo
+Proofs/MetaQcow2.vio: Proofs/MetaQcow2.v Base/Arith.vio Base/Plan.vio Base/Layout.vio Gen/Consts.vio Gen/Layouts.vio Model/MetaCodec.vio Model/MetaQcow2.vio Proofs/MetaCodec.vio
+Proofs/MetaQcow2.vos Proofs/MetaQcow2.vok Proofs/MetaQcow2.required_vos: Proofs/MetaQcow2.v Base/Arith.vos Base/Plan.vos Base/Layout.vos Gen/Consts.vos Gen/Layouts.vos Model/MetaCodec.vos Model/MetaQcow2.vos Proofs/MetaCodec.vos
+Proofs/MetaVhdx.vo Proofs/MetaVhdx.glob Proofs/MetaVhdx.v.beautified Proofs/MetaVhdx.required_vo: Proofs/MetaVhdx.v Base/Arith.vo Base/Plan.vo Base/Layout.vo Gen/Consts.vo Gen/Layouts.vo Model/MetaCodec.vo Model/MetaVhdx.vo Proofs/MetaCodec.vo
+Proofs/MetaVhdx.vio: Proofs/MetaVhdx.v Base/Arith.vio Base/Plan.vio Base/Layout.vio Gen/Consts.vio Gen/Layouts.vio Model/MetaCodec.vio Model/MetaVhdx.vio Proofs/MetaCodec.vio
+Proofs/MetaVhdx.vos Proofs/MetaVhdx.vok Proofs/MetaVhdx.required_vos: Proofs/MetaVhdx.v Base/Arith.vos Base/Plan.vos Base/Layout.vos Gen/Consts.vos Gen/Layouts.vos Model/MetaCodec.vos Model/MetaVhdx.vos Proofs/MetaCodec.vos
+Proofs/MetaVmdk.vo Proofs/MetaVmdk.glob Proofs/MetaVmdk.v.beautified Proofs/MetaVmdk.required_vo: Proofs/MetaVmdk.v Base/Plan.vo Model/MetaCodec.vo Model/MetaVmdk.vo
+Proofs/MetaVmdk.vio: Proofs/MetaVmdk.v Base/Plan.vio Model/MetaCodec.vio Model/MetaVmdk.vio
+Proofs/MetaVmdk.vos Proofs/MetaVmdk.vok Proofs/MetaVmdk.required_vos: Proofs/MetaVmdk.v Base/Plan.vos Model/MetaCodec.vos Model/MetaVmdk.vos
 Proofs/Vhd.vo Proofs/Vhd.glob Proofs/Vhd.v.beautified Proofs/Vhd.required_vo: Proofs/Vhd.v Base/Arith.vo Base/Plan.vo Base/Table.vo Model/Vhd.vo
 Proofs/Vhd.vio: Proofs/Vhd.v Base/Arith.vio Base/Plan.vio Base/Table.vio Model/Vhd.vio
 Proofs/Vhd.vos Proofs/Vhd.vok Proofs/Vhd.required_vos: Proofs/Vhd.v Base/Arith.vos Base/Plan.vos Base/Table.vos Model/Vhd.vos
 Props/C04.vo Props/C04.glob Props/C04.v.beautified Props/C04.required_vo: Props/C04.v Base/Plan.vo Base/Table.vo Model/Vhd.vo Proofs/Vhd.vo
 Props/C04.vio: Props/C04.v Base/Plan.vio Base/Table.vio Model/Vhd.vio Proofs/Vhd.vio
 Props/C04.vos Props/C04.vok Props/C04.required_vos: Props/C04.v Base/Plan.vos Base/Table.vos Model/Vhd.vos Proofs/Vhd.vos
-Props/C14.vo Props/C14.glob Props/C14.v.beautified Props/C14.required_vo: Props/C14.v Base/Layout.vo Gen/Layouts.vo Model/MetaCodec.vo
-Props/C14.vio: Props/C14.v Base/Layout.vio Gen/Layouts.vio Model/MetaCodec.vio
-Props/C14.vos Props/C14.vok Props/C14.required_vos: Props/C14.v Base/Layout.vos Gen/Layouts.vos Model/MetaCodec.vos
+Props/C14.vo Props/C14.glob Props/C14.v.beautified Props/C14.required_vo: Props/C14.v Base/Plan.vo Base/Layout.vo Gen/Consts.vo Gen/Layouts.vo Model/MetaCodec.vo Model/MetaQcow2.vo Model/MetaVhdx.vo Model/MetaVmdk.vo Model/MetaHdrs.vo Model/MetaHdd.vo Proofs/MetaCodec.vo Proofs/MetaQcow2.vo Proofs/MetaVhdx.vo Proofs/MetaVmdk.vo Proofs/MetaHdd.vo
+Props/C14.vio: Props/C14.v Base/Plan.vio Base/Layout.vio Gen/Consts.vio Gen/Layouts.vio Model/MetaCodec.vio Model/MetaQcow2.vio Model/MetaVhdx.vio Model/MetaVmdk.vio Model/MetaHdrs.vio Model/MetaHdd.vio Proofs/MetaCodec.vio Proofs/MetaQcow2.vio Proofs/MetaVhdx.vio Proofs/MetaVmdk.vio Proofs/MetaHdd.vio
+Props/C14.vos Props/C14.vok Props/C14.required_vos: Props/C14.v Base/Plan.vos Base/Layout.vos Gen/Consts.vos Gen/Layouts.vos Model/MetaCodec.vos Model/MetaQcow2.vos Model/MetaVhdx.vos Model/MetaVmdk.vos Model/MetaHdrs.vos Model/MetaHdd.vos Proofs/MetaCodec.vos Proofs/MetaQcow2.vos Proofs/MetaVhdx.vos Proofs/MetaVmdk.vos Proofs/MetaHdd.vos
